@@ -182,6 +182,88 @@ def stateful_cases(rng):
     return fails
 
 
+def chain(prof):
+    """the ProfilingDataset wrappers of a linear pipeline, top first"""
+    out = [prof]
+    while True:
+        nxt = vars(out[-1].input_dataset).get('input_dataset')
+        if isinstance(nxt, core.ProfilingDataset):
+            out.append(nxt)
+        else:
+            return out
+
+
+def indexed_cases(rng):
+    """counters below index-driven stages (slices, one-time shuffle, sort, shard): these fetch their input
+    with numpy integers, position by position; every node of the chain is fetched once per selected position"""
+    import numpy as np
+    fails = []
+    n = rng.randint(1, 6)
+    keyed = rng.random() < 0.5
+    src = {f'k{j}': j for j in range(n)} if keyed else list(range(n))
+    c = rng.randint(1, 5)
+    bad = rng.choice([None, None, rng.randrange(n)])
+    kind = rng.choice(['range', 'list', 'nparray', 'shuffle', 'sort', 'shard', 'reshuffle'])
+
+    def f1(x):
+        return x + c
+
+    def f2(x):
+        if bad is not None and x == bad + c:
+            raise ValueError(x)
+        return x * 2
+
+    def mk():
+        ds = lazy_dataset.new(src).map(f1).map(f2)
+        if kind == 'range':
+            ds = ds[rng2.choice([slice(None, None, -1), slice(1, None), slice(None, None, 2)])]
+        elif kind == 'list':
+            ds = ds[sel]
+        elif kind == 'nparray':
+            ds = ds[np.array(sel, dtype=np.int64)] if sel else ds[[]]
+        elif kind == 'shuffle':
+            ds = ds.shuffle(rng=np.random.RandomState(seed))
+        elif kind == 'sort':
+            ds = lazy_dataset.new(src).map(f1).sort(lambda x: -x).map(f2)
+        elif kind == 'shard':
+            ds = ds.shard(min(2, n), 0)
+        else:
+            ds = ds.shuffle(reshuffle=True, rng=np.random.RandomState(seed))
+        return ds.map(f1) if top_map else ds
+    seed = rng.randrange(1 << 30)
+    sel = [rng.randrange(n) for _ in range(rng.randint(0, n + 1))]
+    top_map = rng.random() < 0.5
+    state = rng.getstate()
+    with warnings.catch_warnings():
+        warnings.simplefilter('ignore')
+        rng2 = random.Random(seed)
+        plain = run_stream(lambda: mk())
+        rng2 = random.Random(seed)
+        prof = core.ProfilingDataset(mk())
+        got = run_stream(lambda: prof)
+        if kind != 'reshuffle' and got != plain:
+            fails.append(('not_transparent', {'kind': kind, 'n': n, 'plain': plain, 'profiled': got}))
+        fetched = len(got['vals']) + (1 if got['err'] is not None else 0)
+        failed = 1 if got['err'] is not None else 0
+        nodes = chain(prof)
+        # `sort` evaluates the key function on a pass of its own at construction: not part of this iteration
+        counts = [list(w.hit_count) for w in nodes]
+        below_bad = False
+        for depth, w in enumerate(nodes):
+            inner = type(w.input_dataset).__name__
+            want_failed = failed
+            if inner == 'MapDataset' and getattr(w.input_dataset, 'map_function', None) is f2:
+                below_bad = True
+            elif below_bad:
+                want_failed = 0           # nodes below the raising function delivered their example
+            if list(w.hit_count) != [fetched, want_failed]:
+                fails.append(('hit_count_below_index_stage', {'kind': kind, 'n': n, 'keyed': keyed, 'sel': sel, 'node': inner, 'depth': depth,
+                                                               'hit_counts_top_first': counts, 'fetched': fetched, 'failed': want_failed}))
+                break
+    rng.setstate(state)
+    return fails
+
+
 def run(rep):
     rng = random.Random(rep.seed * 43 + 20)
     n = 200 if rep.tier == 'quick' else 5000
@@ -200,6 +282,8 @@ def run(rep):
                 dist[o] = dist.get(o, 0) + 1
     for _ in range(60 if rep.tier == 'quick' else 1000):
         fails += stateful_cases(rng)
+    for _ in range(150 if rep.tier == 'quick' else 3000):
+        fails += indexed_cases(rng)
     seen = set()
     for cl, det in fails:
         if cl not in seen and len(rep.violations) < 4:
@@ -211,7 +295,7 @@ def run(rep):
         'distinct_nontrivial': len(distinct),
         'rule': 'random pipelines: plain versus ProfilingDataset on iteration (twice), len, ds[i] for all i, items(), behind a 2-worker thread prefetch; the original object tree must be unchanged; '
                 'for pipelines of iterating stages the counters of EVERY wrapper are compared with the number of examples fetched from that node (computed from the eager reference with the formula of C20_hits_full), '
-                'a consumer stopping after k results, and indexing; distinct non-trivial = distinct pipeline that builds',
+                'a consumer stopping after k results, and indexing; linear pipelines with an index-driven stage (slices by range / list / numpy array, one-time shuffle, sort, shard, per-epoch reshuffle): every wrapper below it counts one fetch per selected position; distinct non-trivial = distinct pipeline that builds',
         'samples': [{'pipeline': {'op': 'map', 'f': {'fn': 'add', 'c': 1}, 'p': {'op': 'list', 'xs': [1, 2]}}, 'expected_hit_counts': {'map': [2, 0], 'source': [2, 0]}}],
         'distribution': {'stage_kinds': dist}, 'exhaustive': False})
     rep.assumptions.append('timing (perf_counter) is not modelled')
